@@ -20,7 +20,7 @@ import (
 func init() {
 	core.Register(&core.Prop{
 		ID: "C10",
-		Rule: "history phase: case = one pair of spatial references (emphasis on pairs where both sides carry 3-/7-parameter datums other than WGS84 — the intermediate WGS84 hop — and on sources/destinations with non-default +axis strings, plus ordinary pairs; in 12% of the pairs one side parses but cannot be set up - an unimplemented projection or utm without zone - so that every call fails; 'twin' pairs = one system twice with one optional clause written on one side only, never two spellings of the same system) with transformers T: S->D, T': D->S and T'': S->registered WGS84 built once, then driven through a random history of 2-40 interleaved calls on tagged inputs (repeats included; a fifth of the calls go to a transformer built at that moment from the two already used SR objects); oracle for every call = a transformer built from freshly parsed copies of the same definitions and used once (agreement within 4 ulp, same error/no-error outcome, no panic); " +
+		Rule: "history phase: case = one pair of spatial references (emphasis on pairs where both sides carry 3-/7-parameter datums other than WGS84 — the intermediate WGS84 hop — and on sources/destinations with non-default +axis strings, plus ordinary pairs; in 12% of the pairs one side parses but cannot be set up - an unimplemented projection or utm without zone - so that every call fails; 'twin' pairs = one system twice with one optional clause written on one side only, never two spellings of the same system) with transformers T: S->D, T': D->S, T'': S->registered WGS84 and Tw: registered WGS84->S built once, then driven through a random history of 2-40 interleaved calls on tagged inputs (repeats included; a fifth of the calls go to a transformer built at that moment from the two already used SR objects); oracle for every call = a transformer built from freshly parsed copies of the same definitions and used once (agreement within 4 ulp, same error/no-error outcome, no panic); " +
 			"structure phase (1% of the cases: one path of 63..65537 vertices in each container type with a value-keyed failing vertex next to the ends / chunk boundaries): case = one geometry of the 8 types (empty members included) transformed with an instrumented affine transformer (type/nesting preserved, *Bounds -> 4-vertex polygon in corner order, vertex i == t(vertex i) bitwise, input untouched), with nil (identity), with a transformer failing on its k-th call for every k <= Len (exactly that error, no panic) and with a real datum-shifting transformer compared vertex by vertex with fresh single-use transformers; " +
 			"an evaluation is one transformer call or one Transform call judged; non-trivial = history with >= 2 calls through a hop pair, or geometry with >= 2 vertices; distinct by content hash",
 		Assumptions: []string{"concurrent use of one transformer is not claimed (the property quantifies over histories, not schedules)", "4-ulp slack so that harmless refactors (cached constants) do not alarm"},
@@ -40,7 +40,7 @@ func init() {
 		},
 		Run: run,
 		Floors: func(t string) map[string]int64 {
-			return map[string]int64{"pair.hop": 500, "pair.axis": 300, "pair.ordinary": 300, "pair.twin": 200, "history.built_from_used_references": 3000, "history.calls": 20000, "history.repeat_call": 2000, "history.to_registered_wgs84": 1000, "history.failing_input": 1000, "pair.one_side_cannot_be_set_up": 100,
+			return map[string]int64{"pair.hop": 500, "pair.axis": 300, "pair.ordinary": 300, "pair.twin": 200, "pair.gridshift": 100, "history.built_from_used_references": 3000, "history.calls": 20000, "history.repeat_call": 2000, "history.to_registered_wgs84": 1000, "history.from_registered_wgs84": 1000, "history.failing_input": 1000, "pair.one_side_cannot_be_set_up": 100,
 				"structure.failing_k": 10000, "structure.shared_backing_array": 1000, "structure.arbitrary_bit_patterns": 1000, "longpath.vertices>=2048": 15, "structure.nil_transformer": 1000, "structure.real_transformer": 1000, "structure.*Bounds": 100, "structure.GeometryCollection": 100, "structure.MultiPolygon": 100, "structure.MultiLineString": 100}
 		},
 	})
@@ -129,7 +129,7 @@ func fresh(src, dst string, in [2]float64) (o outcome) {
 func runHistory(c *core.Ctx) {
 	r := c.R
 	// choose the pair class
-	class := []string{"hop", "hop", "axis", "ordinary", "twin"}[r.Intn(5)]
+	class := []string{"hop", "hop", "axis", "ordinary", "twin", "hop", "hop", "axis", "ordinary", "twin", "gridshift"}[r.Intn(11)]
 	var sdef, ddef *crsgen.Def
 	// a common geographic area so that both systems are usable at the same places
 	lonG, latG := r.Range(-150, 150), r.Range(10, 60)
@@ -161,6 +161,14 @@ func runHistory(c *core.Ctx) {
 		if r.Bool() || sdef.Extra == "" {
 			ddef.Extra = " +axis=" + axes[r.Intn(len(axes))]
 		}
+	case "gridshift":
+		// two systems on one ellipsoid that both name the same grid-shift file: between the two no
+		// datum step is needed, so T and T' work, while every transformation to or from another
+		// datum fails ("gridshift not supported") - T'' fails on every call, and T, T' must go on
+		// working in between
+		sdef, ddef = genIn([]string{"none"}), genIn([]string{"none"})
+		ddef.Ell, ddef.EllKind, ddef.A, ddef.Rf = sdef.Ell, sdef.EllKind, sdef.A, sdef.Rf
+		sdef.Datum, ddef.Datum = " +nadgrids=conus", " +nadgrids=conus"
 	case "twin":
 		// the same system twice, one optional clause (false origin, latitude of origin / of true
 		// scale) written on one side only: whether the two count as the same system must not
@@ -211,7 +219,7 @@ func runHistory(c *core.Ctx) {
 	}
 	detail := map[string]interface{}{"S": S, "D": D, "class": class}
 	// build the three shared transformers once
-	var T, Tr, Tw proj.Transformer
+	var T, Tr, Tw, Tfw proj.Transformer
 	var srS, srD *proj.SR
 	if c.Guard("NewTransform", detail, func() {
 		var err error
@@ -230,6 +238,9 @@ func runHistory(c *core.Ctx) {
 		}
 		if Tw, err = srS.NewTransform(wgs); err != nil {
 			Tw = nil
+		}
+		if Tfw, err = wgs.NewTransform(srS); err != nil {
+			Tfw = nil
 		}
 	}) {
 		return
@@ -259,9 +270,13 @@ func runHistory(c *core.Ctx) {
 		cl.which = r.Intn(3)
 		if r.Chance(0.2) {
 			cl.which = 3 + r.Intn(2)
+		} else if r.Chance(0.15) {
+			cl.which = 5
 		}
 		i := r.Intn(5)
-		if cl.which == 1 || cl.which == 4 {
+		if cl.which == 5 {
+			cl.in = [2]float64{lonG + float64(i)*0.1, latG + float64(i)*0.1}
+		} else if cl.which == 1 || cl.which == 4 {
 			cl.in = inD[i]
 		} else {
 			cl.in = inS[i]
@@ -282,7 +297,7 @@ func runHistory(c *core.Ctx) {
 	if n >= 2 && class == "hop" {
 		c.Nontrivial(h.Sum())
 	}
-	names := []string{"T(S->D)", "T'(D->S)", "T''(S->WGS84)", "a transformer S->D built now from the same two spatial references", "a transformer D->S built now from the same two spatial references"}
+	names := []string{"T(S->D)", "T'(D->S)", "T''(S->WGS84)", "a transformer S->D built now from the same two spatial references", "a transformer D->S built now from the same two spatial references", "Tw(registered WGS84->S)"}
 	rebuilt := func(a, b *proj.SR, in [2]float64) (o outcome) {
 		defer func() {
 			if r := recover(); r != nil {
@@ -313,6 +328,9 @@ func runHistory(c *core.Ctx) {
 		case 4:
 			c.Count("history.built_from_used_references")
 			got, want = rebuilt(srD, srS, cl.in), fresh(D, S, cl.in)
+		case 5:
+			c.Count("history.from_registered_wgs84")
+			got, want = apply(Tfw, cl.in), fresh("WGS84", S, cl.in)
 		}
 		log = append(log, fmt.Sprintf("#%d %s(%v, %v) -> shared (%v, %v, err=%v) fresh (%v, %v, err=%v)", k, names[cl.which], cl.in[0], cl.in[1], got.x, got.y, got.err, want.x, want.y, want.err))
 		detail["history"] = log
